@@ -118,7 +118,9 @@ def target_cache_file_is_up_to_date(
 
     try:
         cache = deserialise(Path(cache_filepath).read_text(), type=CacheableResults)
-    except json.decoder.JSONDecodeError:
+    except Exception:
+        # A cache file that can not be read back for any reason (not JSON, not UTF-8,
+        # wrong shape, ...) is stale, never an error.
         error.info(f"cache file {str(cache_filepath)} is malformed")
         return False
 
